@@ -314,7 +314,7 @@ class Interp:
         except TypeError:
             sub = None
         if sub is not None:
-            return sub(self, args, kwargs)
+            return self._call_subst(sub, args, kwargs)
         intr = M.INTRINSICS.get(getattr(f, "__name__", None)) if getattr(f, "__module__", None) == "pyvc.api" else None
         if intr is not None:
             return intr(self, args, kwargs)
@@ -326,12 +326,14 @@ class Interp:
                     return self.call_sfunc(f.func, [f.self_] + list(args), kwargs)
                 if (f.func.__module__ or "").startswith("pyvc."):
                     return self.call_real(f.func, [f.self_] + list(args), kwargs)
+                if not front.is_user_module(f.func.__module__):
+                    return self._call(f.func, [f.self_] + list(args), kwargs)
                 try:
                     sub = self.subst.get(f.func)
                 except TypeError:
                     sub = None
                 if sub is not None:
-                    return sub(self, [f.self_] + list(args), kwargs)
+                    return self._call_subst(sub, [f.self_] + list(args), kwargs)
                 return self.call_function(f.func, [f.self_] + list(args), kwargs, defcls=f.defcls)
             return self._call(f.func, [f.self_] + list(args), kwargs)
         if isinstance(f, types.MethodType):
@@ -379,6 +381,14 @@ class Interp:
             if f.__name__ in ("add",) and not is_symbolic(args):
                 return f(*args)
         raise Unsupported(f"call of {getattr(f, '__qualname__', f)!r} with symbolic args")
+
+    def _call_subst(self, sub, args, kwargs):
+        """A callee replaced by its contract: either an engine-level callable
+        (it, args, kwargs) or a spec function from contracts/ (interpreted)."""
+        if isinstance(sub, types.FunctionType) and (sub.__module__ or "").startswith("contracts"):
+            self.call_log.append(sub.__qualname__)
+            return self.call_function(sub, list(args), kwargs)
+        return sub(self, args, kwargs)
 
     def _defcls_of(self, m):
         func = m.__func__
@@ -1123,6 +1133,11 @@ class Interp:
     def await_value(self, v):
         if isinstance(v, SCoroutine):
             return v.run()
+        if type(v).__name__ == "SSleep":
+            h = self.hooks.get("sleep")
+            if h is not None:
+                h(self, v)
+            return v.result
         m = self.hooks.get("await_other")
         if m is not None:
             return m(self, v)
